@@ -78,7 +78,20 @@ pub fn run_case(case: &J, workdir: &str, out: &mut dyn Write, n: usize) {
             let role_now = node.dbs.get_role();
             let (user, pwd) = (node.user.clone(), node.pwd.clone());
             drop(node);
-            match Node::start("node1", &dir, &user, &pwd, role_now) {
+            // the loader may abort the whole process on a damaged file (allocation of a garbage
+            // length): try the start-up in a child process first
+            let probe = std::process::Command::new(std::env::current_exe().unwrap())
+                .args(&["probe-load", &dir, &user, &pwd])
+                .stdout(std::process::Stdio::null())
+                .stderr(std::process::Stdio::null())
+                .status();
+            let probe_ok = matches!(probe, Ok(s) if s.success());
+            let started = if probe_ok {
+                Node::start("node1", &dir, &user, &pwd, role_now)
+            } else {
+                Err("start-up fails on this data directory (loader panicked or aborted)".to_string())
+            };
+            match started {
                 Ok(n) => {
                     node = n;
                     ev["r"] = json!({"cls":"ok"});
@@ -106,6 +119,16 @@ pub fn run_case(case: &J, workdir: &str, out: &mut dyn Write, n: usize) {
     drop(node);
     if case["keep"].as_bool() != Some(true) {
         let _ = std::fs::remove_dir_all(&dir);
+    }
+}
+
+/// nunverif probe-load <dir> <user> <pwd>: exit 0 iff the node starts on that directory
+pub fn probe_load(args: &[String]) {
+    install_virtual_clock();
+    silence_panics();
+    match Node::start("node1", &args[0], &args[1], &args[2], ClusterRole::Primary) {
+        Ok(_) => std::process::exit(0),
+        Err(_) => std::process::exit(1),
     }
 }
 
